@@ -48,9 +48,20 @@ def gen_program(rng, nops):
             ops.append(f'mod set {m} {name} {v}')
         elif r < 0.60 and nm > 1:
             m = rng.randrange(1, nm)
-            ops.append(f'mod regm {m} {rng.pick(NAMES)} {rng.randrange(m)}')
+            # explicit registration, half of the time over a name that currently holds a PARAMETER of that module
+            taken = [n_ for (m_, n_), v_ in used.items() if m_ == m and v_.startswith('p')]
+            name = rng.pick(taken) if taken and rng.chance(.5) else rng.pick(NAMES)
+            k = rng.randrange(m)
+            used[(m, name)] = f'm{k}'
+            ops.append(f'mod regm {m} {name} {k}')
         elif r < 0.64:
-            ops.append(f'mod regp {rng.randrange(nm)} {rng.pick(NAMES)} {rng.randrange(npar)}')
+            m = rng.randrange(nm)
+            # ... and over a name that currently holds a SUBMODULE
+            taken = [n_ for (m_, n_), v_ in used.items() if m_ == m and v_.startswith('m')]
+            name = rng.pick(taken) if taken and rng.chance(.5) else rng.pick(NAMES)
+            k = rng.randrange(npar)
+            used[(m, name)] = f'p{k}'
+            ops.append(f'mod regp {m} {name} {k}')
         elif r < 0.70:
             ks = [rng.randrange(nm) for _ in range(rng.randint(0, 3))]
             if rng.chance(0.5):
@@ -115,6 +126,13 @@ def cases(rng, tier):
         # two parameters of different modules over the same gradient values; zero_grad on one owner leaves the other alone
         ['mod new', 'mod new', 'mod param 3 1', 'mod param 3 1', 'mod set 0 w p0', 'mod set 1 w p1', 'mod gset 0 5', 'mod gshare 0 1', 'mod grads', 'mod zero 0', 'mod grads', 'mod pflags',
          'mod freeze 1', 'mod gset 0 7', 'mod gshare 0 1', 'mod zero 1', 'mod grads'],
+    ]
+    # explicit registration over a name that holds a member of the OTHER kind, then every listing / mode / freeze query
+    tail = lambda m: [f'mod params {m}', f'mod num {m}', f'mod eval {m}', 'mod flags', f'mod freeze {m}', 'mod pflags', f'mod train {m}', 'mod flags', f'mod unfreeze {m}', 'mod pflags', f'mod num {m}']
+    corpus += [
+        ['mod new', 'mod new', 'mod param 3 1', 'mod param 5 1', 'mod set 1 a p0', 'mod set 1 b p1', 'mod regm 1 a 0'] + tail(1),
+        ['mod new', 'mod new', 'mod param 3 1', 'mod param 5 0', 'mod set 0 w p1', 'mod set 1 a m0', 'mod regp 1 a 0'] + tail(1),
+        ['mod new', 'mod new', 'mod new', 'mod param 2 1', 'mod param 4 1', 'mod set 0 w p0', 'mod set 2 _fc m0', 'mod set 2 A1 p1', 'mod regp 2 _fc 1', 'mod regm 2 A1 1'] + tail(2),
     ]
     for ops in corpus:
         out.append({'lines': ops, 'nt': True, 'desc': ' ; '.join(ops)})
